@@ -138,9 +138,16 @@ static bool comp_add_to_data(zckCtx *zck, zckComp *comp, const char *src,
 static ssize_t comp_end_dchunk(zckCtx *zck, bool use_dict, size_t fd_size) {
     VALIDATE_READ_INT(zck);
 
-    ssize_t rb = zck->comp.end_dchunk(zck, &(zck->comp), use_dict, fd_size);
-    if(validate_current_chunk(zck) < 1)
+    /* Verify the chunk before decompressing it, so nothing from a corrupted
+     * chunk ever reaches the decompressed buffer */
+    if(validate_current_chunk(zck) < 1) {
+        set_error(zck, "Chunk %llu failed checksum verification",
+                  (long long unsigned) zck->comp.data_idx->number);
         return -1;
+    }
+    if(!zck->comp.end_dchunk(zck, &(zck->comp), use_dict, fd_size))
+        return -1;
+    ssize_t rb = 1;
     zck->comp.data_loc = 0;
     zck->comp.data_idx = zck->comp.data_idx->next;
     if(!hash_init(zck, &(zck->check_chunk_hash), &(zck->chunk_hash_type)))
@@ -515,7 +522,7 @@ ssize_t comp_read(zckCtx *zck, char *dst, size_t dst_size, bool use_dict) {
             }
         }
         if(zck->comp.data_loc == zck->comp.data_idx->comp_length) {
-            if(!comp_end_dchunk(zck, use_dict, zck->comp.data_idx->length)) {
+            if(comp_end_dchunk(zck, use_dict, zck->comp.data_idx->length) < 0) {
                 free(src);
                 return -1;
             }
